@@ -6,8 +6,13 @@ LITS = ['"a.c"', '"[ab]"', '"a"', '"b"', '"c"', '"0"', '"1"', '"ab"', '""', '"x 
 BLITS = ['b"a"', 'b"b"', 'b"\\x00"', 'b"\\xff"', 'b"ab"', 'b"z"']
 
 
+ASCII_ONLY = False      # set by callers that serialise to bytes: a non-ASCII str literal in a binary grammar is UTF-8 encoded
+
+
 def lit(rng, kind):
-    return rng.choice(BLITS if kind == "bytes" else LITS)
+    if kind == "bytes":
+        return rng.choice(BLITS)
+    return rng.choice([x for x in LITS if x.isascii()] if ASCII_ONLY else LITS)
 
 
 REGEXES = ["a.c", "[ab]", "a*", "[0-9]+", "(a|b)c?", "x{1,3}", "[a-c][0-1]", "\\d"]
@@ -40,6 +45,8 @@ def body(rng, nts, depth, kinds, allow_ref=True):
 
 
 def gen_spec(rng, kinds=("str", "regex"), n_nt=None, depth=3):
+    global ASCII_ONLY
+    ASCII_ONLY = any(k in ("bytes", "bits") for k in kinds)
     """returns spec text; <start> first; every nonterminal has a terminating
     alternative so that prime() and fuzzing terminate."""
     n = n_nt or rng.randint(2, 6)
